@@ -127,11 +127,12 @@ CHECKS = {
                part("fullstack", "server", ".", "TestVerifC13Fullstack", shards=(16, 16), budget=(150, 1200), gomaxprocs=1)],
     ),
     "C10": dict(
-        level="model_checking", engine="seq",
+        level="model_checking", engine="seq+sched",
         technique="explicit-state BFS over create/delete/failed-create/restart histories on the real MetaCDC with invariant + differential (fresh reload) oracle in every state",
         text="Every history of create (13 specification shapes), create with a store fault at the n-th call, delete and restart up to the depth bound is replayed on a fresh real MetaCDC (real etcd stores over fakeetcd); in every reached state the selections made by the real data-path and DDL-path functions are evaluated for a 3x3 universe of (database, collection) pairs against a reference, rejected requests must leave bookkeeping and store byte-identical, and the live bookkeeping must equal a fresh reload of the same store.",
-        note="Bounded: depth 4 (5 thorough), one target, <= 3 tasks, universe {default, db1, db2} x {a, b, c}; 15 specification shapes (with user-role flag, name mapping, auto start disabled), pause(task) as an operation. The replication entity is the light one (recording channel manager); connectivity probe skipped through the verif hook.",
-        parts=[part("tasks", "server", ".", "TestVerifC10Tasks", shards=(16, 16), budget=(150, 1200))],
+        note="Bounded: depth 4 (5 thorough), one target, <= 3 tasks, universe {default, db1, db2} x {a, b, c}; 15 specification shapes (with user-role flag, name mapping, auto start disabled), pause(task) as an operation. The replication entity is the light one (recording channel manager); connectivity probe skipped through the verif hook. The concurrent part overlaps a create with the delete of another task / a failing create on the same target under the schedule explorer (store round trips are the scheduling points).",
+        parts=[part("tasks", "server", ".", "TestVerifC10Tasks", shards=(16, 16), budget=(150, 1200)),
+               part("concurrent", "server", ".", "TestVerifC10Concurrent", shards=(10, 10), budget=(120, 600), gomaxprocs=1)],
     ),
     "C19": dict(
         level="model_checking", engine="seq",
